@@ -1198,17 +1198,24 @@ func (c *EvalCtx) call(e *Expr) Value {
 		// the other four collections as ordered lists (abstract; see spec.go)
 		argn(0)
 		st := c.state()
-		if c.ex.mode == "L2" {
-			fail("%s() is an L3 notion", e.Name)
-		}
-		prefix, cnt, typ := map[string][3]string{"stLimits": {"limitList", "nLimits", "PerMessageBurnLimit"}, "stPairs": {"pairList", "nPairs", "TokenPair"},
-			"stNonces": {"nonceList", "nNonces", "Nonce"}, "stMessengers": {"msgrList", "nMsgrs", "RemoteTokenMessenger"}}[e.Name][0], "", ""
 		m := map[string][3]string{"stLimits": {"limitList", "nLimits", "PerMessageBurnLimit"}, "stPairs": {"pairList", "nPairs", "TokenPair"},
 			"stNonces": {"nonceList", "nNonces", "Nonce"}, "stMessengers": {"msgrList", "nMsgrs", "RemoteTokenMessenger"}}[e.Name]
-		prefix, cnt, typ = m[0], m[1], m[2]
+		prefix, cnt, typ := m[0], m[1], m[2]
 		l := VList{ElemT: c.ex.pkgs[repoPrefix+"/types"].Type(typ).Type(), Len: st.abs[cnt], Cols: map[string]*Term{}}
+		if c.ex.mode == "L2" {
+			l.Len = coupling(st, cnt, nil)
+		}
 		for _, cp := range compsWithPrefix(prefix) {
-			l.Cols[strings.TrimPrefix(cp.Name, prefix+".")] = st.abs[cp.Name]
+			col := strings.TrimPrefix(cp.Name, prefix+".")
+			if c.ex.mode == "L2" {
+				// the column as an array defined pointwise from the raw store (definitional side condition)
+				arr := Fresh(prefix+"Of."+col, SArray(SBV(64), cp.ValSort))
+				j := Var("q$al", SBV(64))
+				c.side = append(c.side, Forall([]*Term{j}, Eq(Select(arr, j), coupling(st, cp.Name, []*Term{j})), []*Term{Select(arr, j)}))
+				l.Cols[col] = arr
+				continue
+			}
+			l.Cols[col] = st.abs[cp.Name]
 		}
 		return l
 	case "stAttestersOf":
